@@ -14,7 +14,8 @@ func hmix(h uint64, vs ...uint64) uint64 {
 		h = 14695981039346656037
 	}
 	for _, v := range vs {
-		h ^= v
+		// hash_combine style: must not cancel when h == v (a thread and the object it just touched carry the same hash)
+		h ^= v + 0x9e3779b97f4a7c15 + (h << 6) + (h >> 2)
 		h *= hbPrime
 		h ^= h >> 29
 	}
